@@ -95,6 +95,53 @@ func loadProgram(repo, goarch, tags string) (*Program, error) {
 		constPkgs = append(constPkgs, p.Iter)
 	}
 	loadedPkgs = constPkgs
+	guardInlineCache = map[*ast.CallExpr]ast.Expr{}
+	guardInline = func(call *ast.CallExpr) ast.Expr {
+		if e, ok := guardInlineCache[call]; ok {
+			return e
+		}
+		var res ast.Expr
+		for _, pkg := range constPkgs {
+			info := pkg.TypesInfo
+			if _, ok := info.Types[call]; !ok {
+				continue
+			}
+			cal := Callee(info, call)
+			if cal == nil || cal.Pkg() != pkg.Types {
+				break
+			}
+			fd := findFuncDecl(pkg, cal)
+			if fd == nil || fd.Body == nil || len(fd.Body.List) != 1 || fd.Recv != nil {
+				break
+			}
+			ret, ok := fd.Body.List[0].(*ast.ReturnStmt)
+			if !ok || len(ret.Results) != 1 {
+				break
+			}
+			if b, ok := info.TypeOf(ret.Results[0]).Underlying().(*types.Basic); !ok || b.Info()&types.IsBoolean == 0 {
+				break
+			}
+			sub := map[types.Object]ast.Expr{}
+			i := 0
+			for _, fl := range fd.Type.Params.List {
+				for _, nm := range fl.Names {
+					if i < len(call.Args) {
+						sub[info.Defs[nm]] = call.Args[i]
+					}
+					i++
+				}
+			}
+			if i != len(call.Args) {
+				break
+			}
+			if e, ok := substExpr(ret.Results[0], sub, info); ok {
+				res = e
+			}
+			break
+		}
+		guardInlineCache[call] = res
+		return res
+	}
 	indexFuncValueVars(constPkgs)
 	guardConst = func(e ast.Expr) bool {
 		for _, pkg := range constPkgs {
